@@ -9,21 +9,14 @@ import math
 from .model import unparse
 from .tstr import TStr, unit_of, prefix_of
 from .units import U, ONE, SI, base, sym, mL, PVS_L, PMS_MOL, AMT, AB
-from .unitai import (Num, Lit, SymLit, S, UserQ, UserC, Subst, Cont, Contents, Items, Bool, NoneV, Tup, ListV, DictV,
-                     Closure, Gen, Other, Obj, NONE, Raised, Incomplete, is_num, is_zero, KINDS, Env)
+from .unitai import (Num, Lit, SymLit, S, UserQ, UserC, UserStr, Subst, Cont, Contents, Items, Bool, NoneV, Tup, ListV, DictV,
+                     Closure, Gen, Other, Obj, NONE, Raised, Incomplete, is_num, is_zero, KINDS, Env, UserC1)
 
 UNIT_API = {'convert_prefix_to_multiplier', 'parse_quantity', 'parse_concentration', 'convert_from', 'convert',
             'convert_to_storage', 'convert_from_storage', 'convert_from_storage_to_standard_format',
             'get_human_readable_unit', 'calculate_concentration_ratio'}
 PQ_BASES = ('L', 'g', 'mol', 'U', 'M')
 PC_UNITS = ('mol', 'g', 'L', 'U')
-
-
-class UserC1:
-    """'1 ' + <user concentration unit>."""
-
-    def __init__(self, name):
-        self.name = name
 
 
 def call(I, n):
@@ -230,7 +223,7 @@ def isinstance_(I, n, v, tnode):
         tn = 'Container'
     elif isinstance(v, Subst):
         tn = 'Substance'
-    elif isinstance(v, (S, UserQ, UserC)):
+    elif isinstance(v, (S, UserQ, UserC, UserStr)):
         tn = 'str'
     elif isinstance(v, (Num, SymLit)):
         tn = 'float'
@@ -307,7 +300,7 @@ def call_attr(I, n, f, args, kwargs):
     t = I.as_tstr(recv)
     if t is not None:
         return str_method(I, n, t, name, args)
-    if isinstance(recv, (UserQ, UserC)):
+    if isinstance(recv, (UserQ, UserC, UserStr)):
         return Other('userstr.' + name)
     if isinstance(recv, Subst):
         if name in ('is_enzyme', 'is_liquid', 'is_solid'):
@@ -585,7 +578,20 @@ def _pq_choice(I, key, bases=None):
     return I.memo[key]
 
 
+def _as_user(I, v, role):
+    """A UserStr takes the role of its first use on the path."""
+    if isinstance(v, UserStr):
+        have = I.memo.setdefault(('role', v.name), role)
+        if have != role:
+            if have == 'unit':
+                return S(I.as_tstr(v))
+            raise Raised('ValueError', 0)
+        return UserQ(v.name) if role == 'quantity' else UserC(v.name)
+    return v
+
+
 def api_parse_quantity(I, n, q):
+    q = _as_user(I, q, 'quantity')
     if isinstance(q, UserQ):
         b = _pq_choice(I, ('pq', q.name))
         return Tup([Num(base(b)), S(b)])
@@ -620,6 +626,7 @@ def api_parse_quantity(I, n, q):
 
 
 def api_parse_concentration(I, n, c):
+    c = _as_user(I, c, 'concentration')
     units = I.opts.get('pc_units', PC_UNITS)
     if isinstance(c, (UserC, UserC1)) or isinstance(c, Other):
         name = c.name if not isinstance(c, Other) else 'other:' + c.d
@@ -676,6 +683,7 @@ def api_convert_from(I, n, s, q, fu, tu):
 
 
 def api_convert(I, n, s, q, tu):
+    q = _as_user(I, q, 'quantity')
     if isinstance(q, (UserQ, Other)):
         b = _pq_choice(I, ('pq', q.name if isinstance(q, UserQ) else 'other:' + q.d))
         if b == 'M':
